@@ -336,9 +336,9 @@ def _uniform(res, index):
     ang = Val(kind="float", dim=D0, sym=Poly.atom("phi0"), pdeps=frozenset(["angle"]))
     r = it.run_entry(mk, None, args={"n": nval, "area": av, "angle": ang})
     env = r["returns"][0][1].env if r["returns"] else {}
-    a0 = env.get("area_0")
     sin2 = Poly.atom(f"sin<{(Poly.const(2) * Poly.atom('pi') * n_atom.pow(-1))!r}>")
     want0 = Poly.const(Fraction(1, 2)) * n_atom * sin2
+    a0 = next((v for v in env.values() if v.sym is not None and v.sym == want0), None)
     raises = [x for x in r["raises"] if x[0] == "ValueError"]
     lin = [n_ for n_ in ast.walk(mk.node) if isinstance(n_, ast.Call) and ast.unparse(n_.func) == "np.linspace"]
     lin_ok = False
@@ -348,8 +348,10 @@ def _uniform(res, index):
         lin_ok = ast.unparse(c0.args[0]) == "0" and kws.get("endpoint") == "False" and kws.get("num", ast.unparse(c0.args[2]) if len(c0.args) > 2 else "") == "n"
     theta_ok = any(isinstance(n_, ast.Assign) and isinstance(n_.value, ast.BinOp) and isinstance(n_.value.op, ast.Add)
                    and "linspace" in ast.unparse(n_.value.left) and ast.unparse(n_.value.right) == "angle" for n_ in ast.walk(mk.node))
-    scale_ok = any(isinstance(n_, ast.AugAssign) and isinstance(n_.op, ast.Mult) and "sqrt(area / area_0)" in ast.unparse(n_.value) for n_ in ast.walk(mk.node))
-    guard = any(isinstance(n_, ast.If) and ast.unparse(n_.test).replace(" ", "") == "n<3" and any(isinstance(x, ast.Raise) for x in ast.walk(n_)) for n_ in ast.walk(mk.node))
+    want_scale = (Poly.atom("A").div(want0)).pow(Fraction(1, 2))
+    scale_ok = any(e.type == "augassign" and e.op == "Mult" and e.rhs.sym is not None and e.rhs.sym == want_scale for e in r["events"])
+    guard = any(e.type == "cmp" and e.form == "compare" and e.op == "Lt" and e.left.sym == n_atom and e.right.is_number_const()
+                and e.right.const == 3 for e in r["events"])
     ok = a0 is not None and a0.sym == want0 and bool(raises) and lin_ok and theta_ok and scale_ok and guard
     _verdict(res, ok, "UV-1", "_make_ngon", where, "theta = linspace(0, 2 pi, n, endpoint=False) + angle; area_0 = n/2 sin(2 pi/n); "
              "scale sqrt(area/area_0); n < 3 -> ValueError",
